@@ -75,6 +75,9 @@ var (
 
 func Int(v int64) *Term       { return &Term{Op: "int", Val: big.NewInt(v), Sort: SInt} }
 func BigInt(v *big.Int) *Term { return &Term{Op: "int", Val: new(big.Int).Set(v), Sort: SInt} }
+// tErr: the value of a contract clause that could not be evaluated (never assumed, never a proof goal)
+var tErr = &Term{Op: "false", Sort: SBool, Name: "contract-error"}
+
 func Sym(name, sort string) *Term {
 	return &Term{Op: "sym", Name: name, Sort: sort}
 }
